@@ -172,6 +172,7 @@ def check_program(ctx, name, prog, vm='mbuff', helpers=(), props=('C04',), extra
             kind, addr, n, loc = tr.guard
             rr, m = pr.prove(f'{name}:trap-only-out-of-region@{loc}', tr.pc, Not(inreg(addr, n)), sample=f'{name}: the bounds-check trap of insn {loc} fires only if the {n}-byte access is not wholly inside stack/packet/metadata')
             if rr == 'sat': cand('in-region-access-traps', f'{n}-byte {kind} wholly inside a region traps (eBPF insn {loc})', m, dict(addr=addr))
+    if rets: pr.out['witnesses'] += 1       # at least one path of the emitted IR reaches a return (vacuity witness)
     pr.out['programs'] += 1
     return cands
 
